@@ -1,4 +1,5 @@
 import MsqModel.Analyze.Tables
+import MsqModel.Analyze.Columns
 import MsqModel.Parse.Entry
 import MsqModel.Driver.ShowVal
 /-!
@@ -7,6 +8,9 @@ Driver commands of the analyzer models (C14–C16):
 * `AN tables <all|from|join> <dialect> <hex text>` — `SQLParser.parse_statements(text, sql_type)[0]` handed to
   `AllUsedQuoteTables` / `AllFromClauseUsedQuoteColumn` / `AllJoinClauseUsedQuoteColumn`; answer `OK L[StandardTable{…},…]`
   or the error kind.
+* `AN columns <all|select|join|where|group|having|order|hash> <dialect> <hex text>` — the same statement handed to
+  `CurrentUsedQuoteColumn` / `Current<Clause>ClauseUsedQuoteColumn` (answer `OK L[QuoteColumn{…},…]`) or to
+  `CurrentColumnSelectToDirectQuoteHash` (answer: the dict as a list of `T[StandardColumn{…},L[QuoteColumn{…},…]]` in insertion order).
 -/
 namespace Drv
 
@@ -30,7 +34,23 @@ def anTables (kind : String) (d : Gen.D) (text : List Char) : String :=
     else if kind == "join" then showAn (AN.joinClauseTables v)
     else "BADREQ kind"
 
+def anColumns (kind : String) (d : Gen.D) (text : List Char) : String :=
+  match firstStmt d text with
+  | .error e => e.show
+  | .ok s =>
+    if kind == "hash" then
+      (match AN.selectHash s with
+       | .ok ps => "OK " ++ showVal (.list (ps.map fun (k, v) => .tuple [k.toVal, .list (v.map AN.QCol.toVal)]))
+       | .error e => e.show)
+    else match AN.Clause.ofName? kind with
+      | none => "BADREQ kind"
+      | some c => showAn ((AN.currentColsStmt c s).map fun l => l.map AN.QCol.toVal)
+
 def cmdAnalyze : List String → Option String
+  | ["AN", "columns", kind, dn, h] =>
+    some (match Gen.D.ofName? dn with
+      | none => "BADREQ dialect"
+      | some d => anColumns kind d (unhex h))
   | ["AN", "tables", kind, dn, h] =>
     some (match Gen.D.ofName? dn with
       | none => "BADREQ dialect"
